@@ -159,15 +159,24 @@ fn must_quote(s: &[u8]) -> bool {
     let kws = kws.map(|a| a.map(str::as_bytes));
 
     // https://yaml.org/spec/1.2.2/#912-document-markers
-    let is_doc_marker = |s: &[u8]| matches!(s, b"---" | b"...");
+    // (a marker at the start of a line also ends the document when a blank follows it)
+    let is_doc_marker = |s: &[u8]| {
+        (s.starts_with(b"---") || s.starts_with(b"..."))
+            && s.get(3).map_or(true, |c| b" \t".contains(c))
+    };
 
-    // number overapproximation
-    let is_pos_num = |s: &[u8]| s.first().is_some_and(u8::is_ascii_digit);
-    let is_num = |s: &[u8]| is_pos_num(s.strip_prefix(b"-").unwrap_or(s));
+    // number overapproximation: optional sign, then a digit or a dot (.5, .inf, .nan)
+    let is_pos_num = |s: &[u8]| s.first().is_some_and(|c| c.is_ascii_digit() || *c == b'.');
+    let is_num = |s: &[u8]| {
+        is_pos_num(s.strip_prefix(b"-").or_else(|| s.strip_prefix(b"+")).unwrap_or(s))
+    };
 
     s == b"~"
         || is_doc_marker(s)
         || is_num(s)
+        // the reader strips trailing blanks of plain scalars; " -" confuses it in flow sequences
+        || s.last().is_some_and(|c| b" \t".contains(c))
+        || s.windows(2).any(|w| w == b" -" || w == b"\t-")
         || kws.iter().any(|ss| ss.contains(&s))
         || !ns_plain_one_line(s)
 }
